@@ -279,6 +279,9 @@ def handle (toks : List String) : String :=
       if c.isEmpty then "-" else
       String.ofList ((List.zip c l).map (fun p => if inListRow p.1.2 p.2.2 then '1' else '0'))
     | _, _ => "bad-op"
+  | ["unsup", which, _ty, _c] =>
+    -- documented errors: unsupported sort / rank types are ComputeError, nested kernels InvalidArgumentError
+    if which = "kernel" then "ERR:invalid-arg" else "ERR:compute"
   | ["cmpty", tl, tr, _l, _r] =>
     -- `make_comparator` on arrays of different data types is an error, never a comparator
     if tl = tr then "bad-op" else "ERR:invalid-arg"
